@@ -451,6 +451,8 @@ def run(tier, seed):
     for a in names:
         na = count_points(ops[a])
         for b in names:
+            if len(run.violations) >= 25:
+                break          # a broken tree does not need every schedule
             if tier == "quick" and (zlib.crc32(("%s|%s|%d" % (a, b, seed)).encode()) % 3 != 0) and not (a.startswith("read-decimal") and b.startswith("read-decimal")) \
                     and not dirty[a]:
                 continue
@@ -512,6 +514,8 @@ def run(tier, seed):
                 step = len(sp) / 40.0
                 sp = sorted({sp[int(i * step)] for i in range(40)})
             for b in changers:
+                if len(run.violations) >= 25:
+                    break
                 for k in sp:
                     refresh()
                     ra, rb, where = run_preempted(ops[a], ops[b], k)
@@ -529,6 +533,8 @@ def run(tier, seed):
             continue
         ks = sorted({win[int(i * len(win) / 6.0)] for i in range(6)})
         for b in names:
+            if len(run.violations) >= 25:
+                break
             nb = count_points(ops[b])
             if nb < 4:
                 continue
